@@ -48,40 +48,41 @@ pub fn lex(
     let src = inputs.add_src(src, input);
 
     // Guard against degenerate inputs
-    let mut char_pos = 0;
     let mut byte_pos = 0;
-    for (i, line) in input.lines().enumerate() {
-        let span = || CodeSpan {
-            start: Loc {
-                line: i as u16,
-                col: 1,
-                char_pos,
-                byte_pos,
-            },
-            end: Loc {
-                line: i as u16,
-                col: 2,
-                char_pos: char_pos + 1,
-                byte_pos: byte_pos + line.chars().next().map_or(0, char::len_utf8) as u32,
-            },
-            src: src.clone(),
-        };
+    for (i, full_line) in input.split_inclusive('\n').enumerate() {
+        let line = full_line.strip_suffix('\n').unwrap_or(full_line);
+        let line = line.strip_suffix('\r').unwrap_or(line);
         // Line and column numbers start at 1, and the position after
         // the last line or character must be representable as well
-        if i + 1 >= u16::MAX as usize {
-            let err = LexError::FileTooLong;
-            let span = span();
-            return (Vec::new(), vec![Sp { value: err, span }], src);
-        }
-        if line.chars().count() >= u16::MAX as usize {
-            let err = LexError::LineTooLong(i + 1);
-            let span = span();
-            return (Vec::new(), vec![Sp { value: err, span }], src);
-        }
-        for c in line.chars() {
-            char_pos += 1;
-            byte_pos += c.len_utf8() as u32;
-        }
+        let err = if i + 1 >= u16::MAX as usize {
+            LexError::FileTooLong
+        } else if line.chars().count() >= u16::MAX as usize {
+            LexError::LineTooLong(i + 1)
+        } else {
+            byte_pos += full_line.len();
+            continue;
+        };
+        // The error spans the first character of the line,
+        // located like the lexer would locate it
+        let first = segments(line).first().copied().unwrap_or("");
+        let start = Loc {
+            line: (i + 1) as u16,
+            col: 1,
+            char_pos: segments(&input[..byte_pos]).len() as u32,
+            byte_pos: byte_pos as u32,
+        };
+        let end = Loc {
+            line: start.line,
+            col: 1 + first.chars().filter(|&c| c != '\r').count() as u16,
+            char_pos: start.char_pos + !first.is_empty() as u32,
+            byte_pos: start.byte_pos + first.len() as u32,
+        };
+        let span = CodeSpan {
+            start,
+            end,
+            src: src.clone(),
+        };
+        return (Vec::new(), vec![Sp { value: err, span }], src);
     }
     let (tokens, errors) = Lexer::new(input, src.clone()).run();
     (tokens, errors, src)
@@ -898,6 +899,28 @@ impl fmt::Display for SemanticComment {
     }
 }
 
+/// Split an input into the units the lexer advances by
+fn segments(input: &str) -> Vec<&str> {
+    // Collect graphemes
+    let mut input_segments: Vec<&str> = input.graphemes(true).collect();
+    // Split combining characters from some base characters
+    let mut i = 0;
+    while i < input_segments.len() {
+        for pre in [" ", "\"", "@"] {
+            if let Some(rest) = input_segments[i].strip_prefix(pre) {
+                input_segments[i] = pre;
+                if !rest.is_empty() {
+                    input_segments.insert(i + 1, rest);
+                    i += 1;
+                }
+                break;
+            }
+        }
+        i += 1;
+    }
+    input_segments
+}
+
 struct Lexer<'a> {
     input: &'a str,
     input_segments: Vec<&'a str>,
@@ -909,27 +932,9 @@ struct Lexer<'a> {
 
 impl<'a> Lexer<'a> {
     fn new(input: &'a str, src: InputSrc) -> Self {
-        // Collect graphemes
-        let mut input_segments: Vec<&str> = input.graphemes(true).collect();
-        // Split combining characters from some base characters
-        let mut i = 0;
-        while i < input_segments.len() {
-            for pre in [" ", "\"", "@"] {
-                if let Some(rest) = input_segments[i].strip_prefix(pre) {
-                    input_segments[i] = pre;
-                    if !rest.is_empty() {
-                        input_segments.insert(i + 1, rest);
-                        i += 1;
-                    }
-                    break;
-                }
-            }
-            i += 1;
-        }
-
         Lexer {
             input,
-            input_segments,
+            input_segments: segments(input),
             loc: Loc {
                 char_pos: 0,
                 byte_pos: 0,
